@@ -7,6 +7,7 @@ import (
 	"fmt"
 	"math/big"
 	"math/rand/v2"
+	"strings"
 	"sync"
 
 	"github.com/onflow/crypto"
@@ -82,6 +83,45 @@ func c08PlainVSS(run *mon.Run) {
 		a, _ := crypto.NewFeldmanVSS(c.n, c.t, dealer, ap, dealer)
 		_ = a.Start(mon.RandBytes(r, 32))
 		honestVec := dp.bcast[0]
+		// the honest dealer itself ends with keys: its private share is P(dealer+1), the group key and the
+		// public key shares are those of the vector it broadcast (a second dealer instance serves this so
+		// that `d` stays untouched for the cases below)
+		{
+			dp2 := newRecProc()
+			seed2 := mon.RandBytes(r, 32)
+			d2, _ := crypto.NewFeldmanVSS(c.n, c.t, dealer, dp2, dealer)
+			_ = d2.Start(seed2)
+			sk, gpk, pks, endErr := d2.End()
+			run.Eval(1)
+			rep := map[string]any{"n": c.n, "t": c.t, "dealer": dealer, "seed": mon.Hex(seed2)}
+			disq := 0
+			for _, ev := range dp2.events {
+				if strings.HasPrefix(ev, "disqualify") || strings.HasPrefix(ev, "flag") {
+					disq++
+				}
+			}
+			if endErr != nil || disq != 0 {
+				run.Violate("C08:plain-vss:honest-dealer-fails", fmt.Sprintf("the dealer of an all-honest plain Feldman VSS run ends with error %v (%d disqualification / misbehaviour callbacks)", endErr, disq), rep)
+			} else if len(dp2.bcast) == 1 && len(pks) == c.n {
+				vecPts, why := refVector(dp2.bcast[0], c.t, cv)
+				if why == "" {
+					if want := ref.EncodeG2(vecPts[0], cv); !bytes.Equal(gpk.Encode(), want) {
+						run.Violate("C08:plain-vss:honest-dealer-keys", fmt.Sprintf("the dealer's group key %x is not the constant term %x of the vector it broadcast", gpk.Encode(), want), rep)
+					}
+					if !sk.PublicKey().Equals(pks[dealer]) {
+						run.Violate("C08:plain-vss:honest-dealer-keys", "the dealer's private share does not match its own public key share", rep)
+					}
+					for j := range pks {
+						if j != dealer && len(dp2.priv[j]) == 33 {
+							if !skFromInt(new(big.Int).SetBytes(dp2.priv[j][1:])).PublicKey().Equals(pks[j]) {
+								run.Violate("C08:plain-vss:honest-dealer-keys", fmt.Sprintf("the dealer's public key share %d does not match the private share it sent to participant %d", j, j), rep)
+							}
+						}
+					}
+				}
+			}
+			run.Count("plain-vss.honest-dealer", 1)
+		}
 		for me := 0; me < c.n; me++ {
 			if me == dealer {
 				continue
